@@ -97,4 +97,21 @@ PROPS = {
                                      'leaf coercion on the small Go-value universe of Exec.v (C04/C05 cover the full universe)'],
         'assumptions': ['wf_doc as in C01', 'scalar arguments only (no list / input-object literals)', 'printed form changes when arguments are not written in declaration order: finding F08a (known)'],
     },
+    'C10': {
+        'level': 'proof',
+        'correspondence': 'Exec.exec_op / Exec.doc_rejects == ParseExecutable + ResolveExecutable on documents with one injected defect; property-shaped oracle',
+        'rule': ('valid generated (schema, graph, document) cases as for C01 into which exactly one defect of the catalogue is injected at a random field selection '
+                 '(any depth, any container kind incl. interface / union member / root type): unknown field, undeclared argument, missing required argument, unknown directive, '
+                 'misplaced directive (@deprecated on a field), inline fragment on an undefined type, fragment definition on an undefined type; every fifth case resolves the parsed '
+                 'document three times. Compared: rejection-before-execution flag, data, error multiset, call log (model vs code); oracle: the response is rejected or carries an error of the '
+                 'right kind located at the defective selection whenever the extracted specification says the selection is reached, and no call carries the undefined field / argument. '
+                 'non-trivial = a defect was placed; distinct by input text.'),
+        'explanation': ('Theorems C10_unknown_field, C10_undeclared_argument (first and every later visit), C10_missing_required_reported, C10_argument_errors_no_call, '
+                        'C10_siblings_after_unknown_field, C10_unknown_directive_rejected, C10_undefined_inline_condition_rejected about the executor model, for every container type and depth; '
+                        'C10_refuted_fragment_on_undefined_type records finding F10a; defects F10b, F10c repaired by fix commits 9ef6df0, af9bccf. PARTIAL: directive validation and type-condition '
+                        'resolution happen in the parser/validator, which is modelled only as the rejection predicate doc_rejects (not byte-level); the __type(name:) meta-field is outside this model.'),
+        'trusted_base': COMMON_TB + ['modelled rather than verified: resolve.go resolveField/formArgs/sortArgs/getFieldDef; the parser+validator only as Exec.doc_rejects (directive known-and-allowed, inline type condition defined, repeated argument)',
+                                     'error kinds are recognised on the Go side by message text (the message names the field / argument)'],
+        'assumptions': ['exactly one defect per document', 'object types registered to Go types', 'fragment definitions on undefined types are finding F10a (known, pinned by the test-suite)'],
+    },
 }
